@@ -277,7 +277,7 @@ class Ctx:
         self.notes.setdefault("caps", []).append(why)
 
     # -- records from harnesses
-    def absorb(self, rr, what="harness", require_done=True):
+    def absorb(self, rr, what="harness", require_done=True, crash_is_violation=True):
         """Merge the records of one harness run.  Returns True if the run ended with a 'done' record."""
         done = False
         for r in rr.records:
@@ -318,6 +318,11 @@ class Ctx:
         if require_done and not done:
             if rr.timed_out:
                 self.capped("%s timed out: %s" % (what, " ".join(rr.args[1:])[:200]))
+            elif rr.rc is not None and (rr.rc < 0 or rr.rc in (134, 139, 1)) and crash_is_violation:
+                # the harness process died while executing quill code (abort/assert/segfault/sanitizer): that is a
+                # verdict about the code under test, reported with the command line as the replay handle
+                self.violation({"kind": "harness-crashed", "rc": rr.rc, "harness": what,
+                                "case": " ".join(rr.args[1:])[:600], "stderr": rr.stderr_tail[-600:]})
             else:
                 raise HarnessError("%s ended without 'done' (rc=%s)\nargs: %s\nstdout: %s\nstderr: %s" % (
                     what, rr.rc, " ".join(rr.args), rr.stdout_tail[-1500:], rr.stderr_tail[-1500:]))
